@@ -206,7 +206,68 @@ pub fn run(ctx: &mut Ctx) {
       }
     }
   }
+  // ---- the same schedule seen through the I/O block: what the LCD controller requests must
+  // arrive in IF (bits 0 and 1), whatever LCDC says - display switched off included
+  let mut io_batches = 0u64;
+  let mut io_requests = 0u64;
+  for mask in 0..16u8 {
+    let u = unit;
+    unit += 1;
+    if !ctx.mine(u) {
+      continue;
+    }
+    ctx.intent2(u, 1);
+    let mut rng = Rng::from(&[seed, 0x14a, mask as u64]);
+    for run in 0..(if thorough { 24 } else { 6 }) {
+      let mut io = crate::devices::io::IO::new();
+      let stat = mask << 3;
+      let lyc = *rng.pick(&lycs);
+      // LCDC: on, off from the start, or toggled along the way
+      let lcdc0: u8 = [0x91u8, 0x11, 0x00, 0x91, 0x80, 0x13][run % 6];
+      io.set_byte(0xff40, lcdc0);
+      io.set_byte(0xff41, stat);
+      io.set_byte(0xff45, lyc);
+      io.interrupt_flag.clear(0x1f);
+      let mut t: u64 = 0;
+      while t < 2 * FRAME + 456 * 5 {
+        if run >= 3 && rng.chance(1, 20) {
+          io.set_byte(0xff40, rng.u8());
+          io.interrupt_flag.clear(0x1f);
+        }
+        let n: u64 = match rng.below(4) {
+          0 => 4,
+          1 => 4 * (1 + rng.below(30)),
+          2 => 4 * (1 + rng.below(600)),
+          _ => 4 * (1 + rng.below(5000)),
+        };
+        io.run_clock_cycles(ClockCycles(n as usize), &vram, &oam);
+        let got = io.interrupt_flag.as_u8() & 3;
+        io.interrupt_flag.clear(0x1f);
+        let (want, _) = requests(t, t + n, stat, lyc);
+        t += n;
+        io_batches += 1;
+        evaluations += 1;
+        if got != 0 {
+          io_requests += 1;
+        }
+        if got != want & 3 {
+          let q = (START + t) % FRAME;
+          ctx.violation(
+            &format!("C14:io:if-bits:{}", if got & !want != 0 { "spurious" } else { "missing" }),
+            &format!(
+              "through IO: LCDC first written {:02X}, STAT enables {:02X}, LYC={}: after {} clocks (last batch {}; schedule position line {} dot {}) IF received {:02X} from the LCD controller, the schedule gives {:02X}",
+              lcdc0, stat, lyc, t, n, q / 456, q % 456, got, want & 3
+            ),
+          );
+          break;
+        }
+      }
+    }
+    ctx.distinct_key(hash_words(&[0x14a, mask as u64]));
+  }
   let _ = unit;
+  ctx.count("io-level-batches", io_batches);
+  ctx.count("io-level-batches-with-a-request", io_requests);
   ctx.count("evaluations", evaluations);
   ctx.count("frames-run", frames);
   ctx.count("lines-observed(this worker)", lines_seen.iter().filter(|x| **x).count() as u64);
